@@ -98,23 +98,23 @@ def ser_tx(tx, witness=True):
     if seg is None:
         seg = any(i.get('wit') for i in tx['ins'])
     seg = seg and witness
-    b = struct.pack('<I', tx['ver'])
+    parts = [struct.pack('<I', tx['ver'])]
     if seg:
-        b += b'\x00\x01'
-    b += cs(len(tx['ins']), tx.get('w_in'))
+        parts.append(b'\x00\x01')
+    parts.append(cs(len(tx['ins']), tx.get('w_in')))
     for i in tx['ins']:
-        b += i['txid'] + struct.pack('<I', i['idx']) + cs(len(i['sig']), i.get('w')) + i['sig'] + struct.pack('<I', i['seq'])
-    b += cs(len(tx['outs']), tx.get('w_out'))
+        parts += [i['txid'], struct.pack('<I', i['idx']), cs(len(i['sig']), i.get('w')), i['sig'], struct.pack('<I', i['seq'])]
+    parts.append(cs(len(tx['outs']), tx.get('w_out')))
     for o in tx['outs']:
-        b += struct.pack('<Q', o['val']) + cs(len(o['spk']), o.get('w')) + o['spk']
+        parts += [struct.pack('<Q', o['val']), cs(len(o['spk']), o.get('w')), o['spk']]
     if seg:
         for i in tx['ins']:
             w = i.get('wit') or []
-            b += cs(len(w))
+            parts.append(cs(len(w)))
             for it in w:
-                b += cs(len(it)) + it
-    b += struct.pack('<I', tx['lock'])
-    return b
+                parts += [cs(len(it)), it]
+    parts.append(struct.pack('<I', tx['lock']))
+    return b''.join(parts)
 
 
 def txid(tx):
